@@ -61,6 +61,37 @@ class ClassInfo:
         self.class_attrs = {}     # name -> value expr node
         self.base_exprs = node.bases
         self.bases = []           # resolved ClassInfo list
+        self.ann_fields = []      # [(name, default expr or None)] in order (NamedTuple / dataclass)
+        self.member_order = []    # plainly assigned class attributes in order (Enum members)
+
+    @property
+    def kind(self):
+        """'namedtuple' | 'dataclass' | 'enum' | 'intenum' | 'plain' (from bases / decorators)."""
+        for c in self.mro():
+            bases = [ast.unparse(b).split('.')[-1] for b in c.base_exprs]
+            if 'NamedTuple' in bases:
+                return 'namedtuple'
+            if any(b in ('IntEnum', 'IntFlag') for b in bases):
+                return 'intenum'
+            if any(b in ('Enum', 'Flag', 'StrEnum') for b in bases):
+                return 'enum'
+            for d in c.node.decorator_list:
+                t = ast.unparse(d.func if isinstance(d, ast.Call) else d).split('.')[-1]
+                if t == 'dataclass':
+                    return 'dataclass'
+        return 'plain'
+
+    def all_fields(self):
+        """Annotated fields of the class family, base classes first."""
+        out, seen = [], set()
+        for c in reversed(self.mro()):
+            for n, d in c.ann_fields:
+                if n in seen:
+                    out = [(m, e) if m != n else (n, d) for m, e in out]
+                else:
+                    seen.add(n)
+                    out.append((n, d))
+        return out
 
     def mro(self):
         out = [self]
@@ -105,10 +136,18 @@ class ModuleInfo:
                     elif isinstance(sub, ast.Assign) and len(sub.targets) == 1 \
                             and isinstance(sub.targets[0], ast.Name):
                         ci.class_attrs[sub.targets[0].id] = sub.value
+                        ci.member_order.append(sub.targets[0].id)
+                    elif isinstance(sub, ast.AnnAssign) and isinstance(sub.target, ast.Name):
+                        ci.ann_fields.append((sub.target.id, sub.value))
+                        if sub.value is not None:
+                            ci.class_attrs[sub.target.id] = sub.value
                 self.classes[node.name] = ci
             elif isinstance(node, ast.Assign) and len(node.targets) == 1 \
                     and isinstance(node.targets[0], ast.Name):
                 self.globals[node.targets[0].id] = node.value
+            elif isinstance(node, ast.AnnAssign) and isinstance(node.target, ast.Name) \
+                    and node.value is not None:
+                self.globals[node.target.id] = node.value
             elif isinstance(node, ast.Import):
                 for al in node.names:
                     self.imports[al.asname or al.name.split('.')[0]] = 'ext:' + al.name
